@@ -1626,6 +1626,13 @@ fn parse_expr_unchecked(
                     if member.try_trivial().is_none() {
                         let mut path = member.clone();
                         path.identifiers.pop();
+                        // A leading :: on its own does not name a type
+                        if path.identifiers.is_empty() {
+                            return Err(TyperError::IdentifierIsNotAMember(
+                                composite_ty,
+                                member.clone(),
+                            ));
+                        }
                         match context.find_identifier(&path) {
                             Ok(VariableExpression::Type(ty)) => {
                                 let ty_unmod = context.module.type_registry.remove_modifier(ty);
